@@ -134,6 +134,15 @@ CHECKS = {
    note="No reference verifier for rpm, appx, mach-o/dmg/pkg, cab, cat, msi, apk v2 exists here; XML-DSig goes to the JDK in C19.",
    technique="model-generated cases replayed; second observer = ecosystem verifiers and specification-derived reference computations",
    engine="pipeline"),
+ "C02": dict(cat="model_checking", design="§4 C02",
+   text="spec/Tamper.tla is a decision table (21 types x regions x mutation kinds) stating conservatively what each format's signature "
+        "covers; TLC checks Sound/Complete and 3 negative controls. Binding: one signed artifact per type and key type; region byte sets "
+        "from independent parsers (incl. a CMS DER walker); bytes mutated one at a time; relic's verifier with integrity and chain checking "
+        "must reject every mutation inside a protected region; other regions carry no expectation.",
+   note="An oracle table plus a sweep, not a proof. Sampled positions per region (all of them only for small regions). One open finding "
+        "(APK v2 digests never compared).",
+   technique="TLA+ oracle table checked by TLC; byte-mutation sweep on real signed artifacts through the real verifier",
+   engine="tamper"),
 }
 
 NOT_YET = {}
